@@ -207,6 +207,18 @@ def handle (s : Sexp) : D String :=
       | .ok (t', st) =>
         let fs := st.futures.map fun (n, a, p, sh) => s!"({Sexp.quote n} {a} {if p then "true" else "false"} {sh})"
         pure s!"ok {showRTerm t'} ({" ".intercalate fs}) {st.maxShift}"
+  | .list (.atom "clauses" :: kind :: args) => do
+      -- (clauses bool op lit lhs rhs) | (clauses tel dual lit lhs|none rhs pre) | (clauses eq a b)
+      let cs ← match kind, args with
+        | .atom "bool", [op, lit, lhs, rhs] => pure (boolClauses (← decStr op) (← decInt lit) (← decInt lhs) (← decInt rhs))
+        | .atom "tel", [dual, lit, lhs, rhs, pre] => do
+            let l ← match lhs with
+              | .atom "none" => pure none
+              | x => do pure (some (← decInt x))
+            pure (telClauses (← decBool dual) (← decInt lit) l (← decInt rhs) (← decInt pre))
+        | .atom "eq", [a, b] => pure (makeEqual (← decInt a) (← decInt b))
+        | _, _ => dfail "clauses" s
+      pure ("(" ++ " ".intercalate (cs.map fun c => "(" ++ " ".intercalate (c.map toString) ++ ")") ++ ")")
   | .list [.atom "symterm", x] => do
       -- (symterm <symbol>) : the theory term of the symbol, and what create_symbol makes of it
       let sy ← decSym x
